@@ -186,7 +186,8 @@ class MonitoredList(MonitoredContainer, list):
         return list
 
     def extend(self, items):
-        for item in items:
+        # take the items first: `items` may be this list itself
+        for item in list(items):
             self._add_item(item)
 
     def append(self, item):
@@ -201,7 +202,10 @@ class MonitoredList(MonitoredContainer, list):
         super().append(item)
 
     def __setitem__(self, idx, value):
-        value = self._on_add(value)
+        if isinstance(idx, slice):
+            value = [self._on_add(v) for v in value]
+        else:
+            value = self._on_add(value)
         super().__setitem__(idx, value)
 
     def insert(self, idx, item):
